@@ -66,6 +66,12 @@ RegionsRamp == {[k |-> "rpregion", secs |-> ss, w |-> w, o |-> o[1], o1 |-> o[2]
                   ss \in {<<Seg(<<8, 0>>, FALSE)>>, <<[k |-> "cubic", c1 |-> <<3, 0>>, c2 |-> <<6, 2>>, e |-> <<8, 5>>, rel |-> TRUE]>>},
                   w \in {1000, 500}, o \in {<<0, 3000>>, <<750, -1500>>, <<-2000, 0>>}, e \in {"round", "flush"},
                   t \in (IF Depth = "thorough" THEN {2, 3} ELSE {2}), ro \in {0, 1}}
+\* polyline paths (sharp corners, sides meeting in mitres): a short section between two bends of the
+\* same direction followed by more sections, a zigzag, and a hairpin wider than its middle section
+PolySpines == { << <<10, 0>>, <<10, 1>>, <<4, 9>>, <<-6, 9>> >>, << <<6, 0>>, <<6, 6>>, <<12, 6>>, <<12, 0>> >>,
+                << <<8, 0>>, <<8, 3>>, <<0, 3>>, <<0, 8>>, <<9, 8>> >>, << <<7, 0>>, <<9, 5>>, <<2, 7>> >> }
+RegionsPoly == {[k |-> "rpregion", secs |-> [i \in DOMAIN sp |-> Seg(sp[i], FALSE)], w |-> w, o |-> 0, ends |-> "flush",
+                 tolk |-> 2, rot |-> ro, mag |-> 1, poly |-> TRUE] : sp \in PolySpines, w \in {2000, 1000}, ro \in {0, 1}}
 \* centre lines of simple paths: a tangent-continuous chain of 2-4 sections, each with its own linear
 \* offset interpolation, continuous from section to section (a kink or a jump has no exact centre curve)
 CSecs == << Seg(<<6, 0>>, TRUE), [k |-> "cubic_smooth", c2 |-> <<4, 3>>, e |-> <<6, 5>>, rel |-> TRUE],
@@ -75,7 +81,7 @@ COffs == { << <<0, 0>>, <<0, 750>>, <<750, 750>>, <<750, -300>> >>,
            << <<0, 600>>, <<600, 0>>, <<0, 0>>, <<0, -400>> >> }
 Centers == {[k |-> "rpcenter", secs |-> SubSeq(CSecs, 1, n), offs |-> SubSeq(os, 1, n), w |-> 1000, tolk |-> t]
               : n \in 2..4, os \in COffs, t \in {2, 3}}
-Init == case \in Books \cup After \cup Cmds \cup Regions \cup RegionsMag \cup RegionsRamp \cup Centers
+Init == case \in Books \cup After \cup Cmds \cup Regions \cup RegionsMag \cup RegionsRamp \cup RegionsPoly \cup Centers
 Next == UNCHANGED case
 AppendOpts == [format |-> "TXT", charset |-> "UTF-8",
                openOptions |-> <<"WRITE", "CREATE", "APPEND">>]
